@@ -337,7 +337,7 @@ func (wk *worker) onePath(fn *ssa.Function, prefix []decision) {
 		kind = kind[:j]
 	}
 	needModel := kind == "panic" || kind == "budget"
-	if !needModel && wk.ex.SampleEvery > 0 && kind == "ok" && wk.npth%wk.ex.SampleEvery == 0 {
+	if !needModel && wk.ex.SampleEvery > 0 && kind == "ok" && (wk.npth%wk.ex.SampleEvery == 0 || wk.npth == 2) {
 		needModel = true
 	}
 	if needModel {
